@@ -20,6 +20,7 @@ structure Dump where
   category : Std.HashMap String String := {}
   catName : Std.HashMap String String := {}
   tz : Std.HashSet String := {}
+  subst : Std.HashMap String Substance := {}
 
 def Dump.addLine (d : Dump) (line : String) : Dump :=
   match line.trimAscii.toString.splitOn " " with
@@ -41,6 +42,16 @@ def Dump.addLine (d : Dump) (line : String) : Dump :=
   | ["category", n, c] => { d with category := d.category.insert (unhex n) (unhex c) }
   | ["catname", c, n] => { d with catName := d.catName.insert (unhex c) (unhex n) }
   | ["tz", n] => { d with tz := d.tz.insert (unhex n) }
+  | ["subst", n, v, dims] =>
+    match parseNumeric v with
+    | some v => { d with subst := d.subst.insert (unhex n) { amount := ⟨v, parseDim dims⟩, name := unhex n, props := [] } }
+    | none => d
+  | ["prop", n, pn, iv, idims, iname, ov, odims, oname] =>
+    match parseNumeric iv, parseNumeric ov, d.subst[unhex n]? with
+    | some iv, some ov, some s =>
+      let p : Property := { input := ⟨iv, parseDim idims⟩, inputName := unhex iname, output := ⟨ov, parseDim odims⟩, outputName := unhex oname }
+      { d with subst := d.subst.insert (unhex n) { s with props := s.props ++ [(unhex pn, p)] } }
+    | _, _, _ => d
   | _ => d
 
 def Dump.toRegistry (d : Dump) : Registry :=
@@ -58,7 +69,8 @@ def Dump.toRegistry (d : Dump) : Registry :=
     unitList := d.unitList.toList
     category := fun n => d.category[n]?
     categoryName := fun n => d.catName[n]?
-    isQuantityName := fun n => qnames.contains n }
+    isQuantityName := fun n => qnames.contains n
+    substance := fun n => d.subst[n]? }
 
 /-- dims as printed in answers: plain names raw, others `x<hex>` -/
 def parseDimEnc (s : String) : Dim :=
